@@ -156,3 +156,19 @@ Theorem C17_thread_pool_fails_no_hang : forall cap w reqs fails, 1 <= cap -> 1 <
   forall s, pool_reachable_f cap w reqs fails s -> snd s = false -> pool_finished (fst s) = false ->
   exists t s', pool_step_f cap fails s t = Some s'.
 Proof. exact pool_f_no_hang. Qed.
+
+(* ---- signals ---- util::WaitSemaphore, regenerated from the source, retries after EINTR; therefore a signal delivered to any
+   thread at any moment (in particular to one parked in Produce / Consume) leaves the queue's state unchanged, and every run with
+   signals is a run without them: all theorems above hold under arbitrary signal delivery. *)
+Theorem C17_wait_retries_on_eintr : wait_on_eintr = EintrRetry.
+Proof. exact wait_is_expected. Qed.
+
+Theorem C17_signals_are_invisible : forall sched s s', run_i sched s = Some s' -> run (runs_of sched) s = Some s'.
+Proof. exact run_i_is_run. Qed.
+
+(* "fill, then drain": with every queue of capacity block_count (what Chain::Start / Chain::Add pass to the PCQueue constructors;
+   read back from the running code through the constructor's scheduling-point hook on every run), a source that writes at most
+   block_count - 1 blocks and then poisons runs to completion without any consumer: data blocks and poison fit. *)
+Theorem C17_chain_source_alone_never_blocks : forall b payloads fs, fs <> [] -> length payloads + 1 <= b ->
+  exists c, chain_run b (repeat TSrc (2 * (length payloads + 1))) (chain_init b payloads fs) = Some c /\ sphs c = SDone.
+Proof. exact source_alone_never_blocks. Qed.
